@@ -46,6 +46,9 @@ def gen_spec(r: random.Random, flavor: str, **over) -> dict:
         spec["proxy"] = "tun"
     if spec["proxy"] == "tun" and proto == "h1":
         spec["proto"] = "h1tls"
+    if spec["proto"] == "h1tls" and r.random() < 0.4:
+        # pool believes the connection may become HTTP/2; ALPN says HTTP/1.1: concurrent requests get re-queued
+        spec["pool_kw"] = {"http2": True}
     spec.update(over)
     return spec
 
